@@ -236,6 +236,63 @@ pub fn check(tape: &[u32]) -> CheckResult {
             nontrivial |= off_canvas || smaller || nodiv;
         }
     }
+    // A linked cel on a tilemap layer that points at a tilemap cel and carries another (tile-aligned) position of
+    // its own. The unchanged library refuses such files; a reader that accepts them has to keep the lookup view and
+    // the image consistent for the linked cel too (checked with the library's own views only).
+    if t.chance(1, 4) && s.width <= 4096 && s.height <= 4096 {
+        let mut cands = vec![];
+        for (fi, fr) in s.frames.iter().enumerate() {
+            for c in &fr.cels {
+                if let (LayerKind::Tilemap { tileset }, CelContent::Tilemap { masks, tiles, .. }) = (&s.layers[c.layer as usize].kind, &c.content) {
+                    if tiles.iter().all(|w| w & (masks[1] | masks[2] | masks[3]) == 0) {
+                        cands.push((fi, c.layer, *tileset, c.x, c.y, c.opacity));
+                    }
+                }
+            }
+        }
+        if !cands.is_empty() && s.frames.len() < 60000 {
+            let (fi, li, tsid, cx, cy, cop) = cands[t.below(cands.len() as u32) as usize];
+            let ts = s.tileset_by_id(tsid).unwrap();
+            let (tw, th) = (ts.tw as i64, ts.th as i64);
+            let mut s2 = s.clone();
+            let (dx, dy) = (t.range(-2, 3) * tw, t.range(-2, 3) * th);
+            let lx = (cx as i64 + dx).clamp(-32768, 32767) as i16;
+            let ly = (cy as i64 + dy).clamp(-32768, 32767) as i16;
+            let mut fr = crate::model::Frame { duration: 100, cels: vec![] };
+            fr.cels.push(Cel { layer: li, x: lx, y: ly, opacity: cop, content: CelContent::Link { frame: fi as u16 }, user_data: None });
+            s2.frames.push(fr);
+            let nf = s2.frames.len() - 1;
+            let enc2 = encode(&s2, &plan);
+            match AsepriteFile::read(&enc2.bytes[..]) {
+                Err(_) => labels.push("link-to-tilemap-cel:refused".into()),
+                Ok(f2) => {
+                    labels.push("link-to-tilemap-cel:accepted".into());
+                    if let Some(tm) = f2.tilemap(li as u32, nf as u32) {
+                        let at = json!({"linked_tilemap_cel": {"frame": nf, "layer": li, "own_xy": [lx, ly], "target_frame": fi, "target_xy": [cx, cy]}});
+                        let img = canon(&tm.image());
+                        let lts = f2.tilesets().get(tsid).unwrap();
+                        let op = mul_un8(s.layers[li as usize].opacity as i32, cop as i32) as i32;
+                        let mut tile_imgs: std::collections::HashMap<u32, image::RgbaImage> = std::collections::HashMap::new();
+                        for py in 0..s.height as i64 {
+                            for px in 0..s.width as i64 {
+                                let id = tm.tile((px / tw) as u32, (py / th) as u32).id();
+                                if tile_imgs.len() > 48 {
+                                    tile_imgs.clear();
+                                }
+                                let src = tile_imgs.entry(id).or_insert_with(|| lts.tile_image(id)).get_pixel((px % tw) as u32, (py % th) as u32).0;
+                                let a = mul_un8(src[3] as i32, op);
+                                let want = if a == 0 { [0, 0, 0, 0] } else { [src[0], src[1], src[2], a] };
+                                let got = img.get(px as u32, py as u32);
+                                if got != want {
+                                    return Err(Failure::new("linked-tilemap-image-relation", format!("linked tilemap cel: image pixel ({},{}) is {:?}; tile({},{}) = {} whose pixel is {:?}, opacity product {} -> expected {:?}", px, py, got, px / tw, py / th, id, src, op, want)).with(detail(at)));
+                                }
+                            }
+                        }
+                    }
+                }
+            }
+        }
+    }
     labels.push(format!("fmt-{:?}", s.fmt));
     labels.sort();
     labels.dedup();
